@@ -235,7 +235,7 @@ def main(run):
         "evaluations": ncases + n_tr + n_mt,
         "round_trip_cases": sum(1 for p in ok_pairs for c in p.cases if c["dir"] == "rt"),
         "distinct_nontrivial": len(distinct),
-        "rule": ("%d src/dest package pairs: the 25 hand-written corpus pairs of mapgen.corpus() (one per rule of the property and one per finding class of the review: pointer-embedded mapper with value/pointer receivers, tags with `_`, embedded non-struct) and random ones from harness/mapgen.py (numeric widths, strings, named scalars of "
+        "rule": ("%d src/dest package pairs: the 28 hand-written corpus pairs of mapgen.corpus() (one per rule of the property and one per finding class of the review: pointer-embedded mapper with value/pointer receivers, tags with `_`, embedded non-struct) and random ones from harness/mapgen.py (numeric widths, strings, named scalars of "
                  "the dest/common packages, sub-structs by value/pointer/slice in all four pointer combinations, "
                  "maps, embedded value/pointer structs to depth 2 with shadowing, map:\"Name\"/map:\"-\" tags, "
                  "mapper-method sets in the source or a separate package incl. duplicate signatures, manual toX/fromX, "
